@@ -304,6 +304,18 @@ func c03Gen(r *kit.Rand, idx int, tiny []byte) c03Case {
 		}
 		c.Attempts = append(c.Attempts, at)
 	}
+	if idx%16 == 7 {
+		// challenge sweep: six attempts, each answered 401 with the next entry of the catalogue of malformed
+		// WWW-Authenticate headers (six such cases per 96 walk the whole catalogue in every run), then the clean attempt
+		last := c.Attempts[len(c.Attempts)-1]
+		c.Attempts = nil
+		for k := 0; k < 6; k++ {
+			h := c03Challenges[(6*(idx/16)+k)%len(c03Challenges)]
+			c.Attempts = append(c.Attempts, c03Attempt{Version: last.Version, Stream: k%2 == 0,
+				Faults: []Fault{{Kind: []string{"manifest", "head", "blobget"}[k%3], Nth: 1, Act: "challenge", Str: h}}})
+		}
+		c.Attempts = append(c.Attempts, last)
+	}
 	return c
 }
 
@@ -867,7 +879,7 @@ func runC03() {
 	rep := kit.NewReport("C03")
 	cfg := rep.Cfg()
 	defer rep.Flush()
-	rep.Set("rule", "case i = PRNG(seed,'C03',i): 1-2 model versions (2-5 layers of 0 B..300 KB, layers shared between versions) and 1-4 pull attempts of one name against the real server binary; every attempt but the last carries 1-3 registry/CDN faults (5xx/4xx/404 on manifest, HEAD, blob GET, CDN; 401 with ~30 malformed challenge headers and with a well-formed one whose token endpoint is served; truncated/garbage/reset manifest; wrong or missing Content-Length on HEAD; redirect chains; CDN body truncated, bit-flipped, Range ignored, short, too long, reset), optional client disconnect after progress line k, a CDN outage for a whole attempt (two cases per 96: one part uses up all six tries of the client), optional synthetic resume state (multi-part -partial files, correct or corrupt, an empty part file, an incomplete set of part files), overlapping pulls of a second model sharing the first layer while the first pull is held by the CDN, relay attempts (three pulls of the name: A's first CDN request fails and its user leaves during the retry pause, B starts meanwhile and any CDN request of its own is held, C runs once A has unwound, then the held response is delivered intact, flipped or cut; judged when all three have ended), a token endpoint that itself answers 401 with a challenge. Oracle after every attempt: server alive; success => stored manifest equals the served one and every layer + config has the manifest's size and SHA-256 (re-hashed); failure => if the name resolves its manifest's layers are all intact; a fault-free attempt at the end succeeds (at most two further fault-free retries are allowed, e.g. after a digest mismatch from bytes left in the resume file) and the model can be shown. Non-trivial & distinct = distinct (sequence of fault kinds+acts per attempt, outcomes) among cases with at least one faulted attempt")
+	rep.Set("rule", "case i = PRNG(seed,'C03',i): 1-2 model versions (2-5 layers of 0 B..300 KB, layers shared between versions) and 1-4 pull attempts of one name against the real server binary; every attempt but the last carries 1-3 registry/CDN faults (5xx/4xx/404 on manifest, HEAD, blob GET, CDN; 401 with ~30 malformed challenge headers and with a well-formed one whose token endpoint is served; truncated/garbage/reset manifest; wrong or missing Content-Length on HEAD; redirect chains; CDN body truncated, bit-flipped, Range ignored, short, too long, reset), optional client disconnect after progress line k, a CDN outage for a whole attempt (two cases per 96: one part uses up all six tries of the client), optional synthetic resume state (multi-part -partial files, correct or corrupt, an empty part file, an incomplete set of part files), overlapping pulls of a second model sharing the first layer while the first pull is held by the CDN, relay attempts (three pulls of the name: A's first CDN request fails and its user leaves during the retry pause, B starts meanwhile and any CDN request of its own is held, C runs once A has unwound, then the held response is delivered intact, flipped or cut; judged when all three have ended), a token endpoint that itself answers 401 with a challenge; six cases per 96 are challenge sweeps that together answer 401 with every entry of the catalogue of malformed WWW-Authenticate headers. Oracle after every attempt: server alive; success => stored manifest equals the served one and every layer + config has the manifest's size and SHA-256 (re-hashed); failure => if the name resolves its manifest's layers are all intact; a fault-free attempt at the end succeeds (at most two further fault-free retries are allowed, e.g. after a digest mismatch from bytes left in the resume file) and the model can be shown. Non-trivial & distinct = distinct (sequence of fault kinds+acts per attempt, outcomes) among cases with at least one faulted attempt")
 	rep.Set("assumptions", []string{"served manifests are self-consistent (sizes and digests describe the blobs they name)", "quick tier: single-part layers over the wire (<100 MB), multi-part layouts through synthetic resume files; thorough tier adds real 200-230 MB layers (three download parts)", "process death is observed through /api/version + the server log"})
 	bin := os.Getenv("VERIF_OLLAMA_BIN")
 	work, err := os.MkdirTemp("", "verif-c03-")
